@@ -388,6 +388,57 @@ def stellar_part(ck, tier, seed):
     ck.assumptions.append("stellar side: sol/jupiter/io_simple (layered and global-approximation variants) and 55cnc/earth (star as host), three value ids per quantity, scalar and array values")
 
 
+def dual_host_part(ck, tier, seed):
+    """specs/DualHost.tla: a tidally active non-stellar host + a tidally active moon: every change of the moon's orbit must reach the
+    HOST's derived quantities too, a change of either spin the orbit's dual-body derivatives (inside C13's statement)."""
+    r = run_tlc("DualHost", "DualHost.cfg", coverage=True, timeout=300, workers=4)
+    ck.add_tlc(r, "DualHost complete graph to depth 6")
+    if not r.ok:
+        raise MachineryError("DualHost: %s violated" % r.violated)
+    rn = run_tlc("DualHost", "DualHost_neg.cfg", timeout=300, workers=4, expect_violation=True)
+    if rn.ok or rn.violated != "C13_HostFresh":
+        raise MachineryError("DualHost_neg: expected C13_HostFresh to be violated, got %s" % rn.violated)
+    wd = scratch("dualsim")
+    os.makedirs(os.path.join(wd, "sim"))
+    nb = 24 if tier == "quick" else 240
+    run_tlc("DualHost", "DualHost_sim.cfg", workdir=wd, workers=1, timeout=600, depth=12,
+            simulate="file=%s,num=%d" % (os.path.join(wd, "sim", "b"), nb), seed=seed + 11)
+    behs = []
+    for f in sorted(os.listdir(os.path.join(wd, "sim"))):
+        b = tlaval.parse_sim_file(os.path.join(wd, "sim", f))
+        if b:
+            behs.append([[list(st["last"]), {k: st[k] for k in ("per", "ecc", "hspin", "mspin")}] for _a, _g, st in b])
+    acts = {x[0][0] for b in behs for x in b}
+    if not {"SetE", "SetP", "SetBoth", "HostSpin", "MoonSpin"} <= acts:
+        raise MachineryError("vacuity: DualHost behaviours lack %s" % ({"SetE", "SetP", "SetBoth", "HostSpin", "MoonSpin"} - acts))
+
+    def drive(bb, sabotage=False):
+        out = scratch("dualjob")
+        jf = os.path.join(out, "job.json")
+        json.dump({"behaviours": bb, "sabotage": sabotage}, open(jf, "w"))
+        p = core.run_py(["-m", "harness.dual_host_driver", jf], timeout=3000, env={"NUMBA_NUM_THREADS": "1", "OMP_NUM_THREADS": "1"})
+        if p.returncode != 0 or not os.path.exists(jf + ".out.json"):
+            raise MachineryError("dual_host_driver failed: %s" % (p.stderr or "")[-1200:])
+        return json.load(open(jf + ".out.json"))
+    res = drive(behs)
+    for b in behs:
+        ck.cov["traces_validated_against_impl"] += 2
+        for lab, st in b:
+            ck.case(("dual-host", json.dumps(lab), json.dumps(st, sort_keys=True)), lab[0] != "Init")
+    for v in res["results"]:
+        ck.violation({"clause": "dual_host_fresh", "action": v["label"][0], "path": v["label"][-1] if len(v["label"]) > 2 else None, "what": v["problems"][0][0].split(".")[0]},
+                     "dual-body system (ctl=%s) after %s: %s (history: %s)" % (v["ctl"], v["label"], "; ".join("%s %s" % (a, b[:160]) for a, b in v["problems"][:3]), v.get("prefix")),
+                     {"kind": "dual_host", "ctl": v["ctl"], "behaviour": behs[v["behaviour"]][:v["step"] + 1], "problems": v["problems"]})
+    negb = next((b for b in behs if any(x[0][0] == "SetE" and x[1] != y[1] for x, y in zip(b[1:], b))), None)
+    if negb is None:
+        raise MachineryError("no DualHost behaviour with an effective SetE for the negative control")
+    neg = drive([negb], sabotage=True)
+    if not neg["results"]:
+        raise MachineryError("dual-host binding self-test failed: a skipped eccentricity update went unnoticed")
+    ck.notes["dual_host"] = {"behaviours": 2 * len(behs), "steps_replayed": res["steps"], "negative_control_model": "DualHost_neg.cfg violates C13_HostFresh",
+                             "negative_control_binding": "a skipped SetE is reported (%s)" % neg["results"][0]["problems"][0][0]}
+
+
 def run(tier, seed, pid="C13"):
     ck = Check(pid, "model_checking", tier, seed)
     rng = random.Random(seed)
@@ -474,6 +525,7 @@ def run(tier, seed, pid="C13"):
     if pid == "C13":
         layered_part(ck, tier, rng)
         stellar_part(ck, tier, seed)
+        dual_host_part(ck, tier, seed)
     if results:
         job, res = results[0]
         for b in job["behaviours"][:3]:
